@@ -23,6 +23,9 @@ use tokio::sync::mpsc;
 const LOOKUP_TIMEOUT: Duration = Duration::from_millis(1500);
 const ENDGAME_TIMEOUT: Duration = Duration::from_millis(1500);
 const ANNOUNCE_PICK_NUM: usize = 8;
+/// Longest announce token we are willing to echo back in an `announce_peer` (tokens are opaque
+/// but short in practice); a longer one would push the request past what a node can receive.
+const MAX_TOKEN_LEN: usize = 256;
 
 // Currently using the aggressive variant of the standard lookup procedure.
 // https://people.kth.se/~rauljc/p2p11/jimenez2011subsecond.pdf
@@ -152,7 +155,9 @@ impl TableLookup {
 
         if let Some(token) = msg.token {
             // Add the announce token to our list of tokens
-            self.announce_tokens.insert(*node.handle(), token);
+            if token.len() <= MAX_TOKEN_LEN {
+                self.announce_tokens.insert(*node.handle(), token);
+            }
         }
 
         let nodes = match socket.ip_version() {
